@@ -102,6 +102,9 @@ var libKinds = []string{"lib_data_detached", "lib_spc", "lib_other_oid", "lib_ba
 func Draw(t *rapid.T, id gen.Identity) Seed {
 	kind := rapid.SampledFrom(libKinds).Draw(t, "seedkind")
 	content := gen.SizedBytes(300, 0, 1, 55, 56, 64).Draw(t, "content")
+	if rapid.IntRange(0, 5).Draw(t, "dershaped") == 0 {
+		content = gen.DERShaped(t)
+	}
 	s := Seed{Kind: kind, Signer: id, Content: content}
 	var err error
 	switch kind {
